@@ -33,8 +33,23 @@ pub fn spare_for(k: usize, w: u32) -> usize {
 pub fn content(pt: PT, w: u32, h: u32, seed: u64) -> Raw {
     let mut l = Lcg::new(seed);
     let ck = pt.ck();
-    // never equal to the sentinels in every byte, so stale data is visible
-    Raw::from_fn(pt, w, h, |_, _, _| if ck == CK::F32 { l.comp(ck) } else { l.comp(ck) })
+    // never equal to the sentinels in every byte, so stale data is visible. Alpha types get fully
+    // opaque and fully transparent pixels on a fixed pattern (data-dependent shortcuts of the alpha
+    // kernels - "opaque: nothing to multiply", "transparent: nothing to divide" - must still write).
+    let nc = pt.ncomp();
+    let amax = if ck == CK::F32 { 1.0 } else { ck.max() };
+    Raw::from_fn(pt, w, h, |x, y, c| {
+        let v = l.comp(ck);
+        if pt.has_alpha() && c == nc - 1 {
+            match (x + 3 * y) % 5 {
+                0 => amax,
+                1 => 0.0,
+                _ => v,
+            }
+        } else {
+            v
+        }
+    })
 }
 
 pub struct Outcome {
